@@ -30,8 +30,8 @@ TARGETS = {
     "modifiers/shapefactor.py": ["C01", "C12"], "modifiers/lumi.py": ["C01", "C12"],
     "modifiers/normfactor.py": ["C01", "C12"],
     "pdf.py": ["C01", "C02", "C10", "C12", "C20"], "constraints.py": ["C02", "C14"],
-    "parameters/paramsets.py": ["C12", "C02"], "parameters/paramview.py": ["C12", "C01"],
-    "tensor/numpy_backend.py": ["C04", "C01"], "probability.py": ["C04", "C02"],
+    "parameters/paramsets.py": ["C12", "C02"], "parameters/paramview.py": ["C12", "C01", "C10"],
+    "tensor/numpy_backend.py": ["C04", "C01", "C14"], "probability.py": ["C04", "C02"],
     "infer/test_statistics.py": ["C06"], "infer/calculators.py": ["C07", "C08", "C14"], "infer/__init__.py": ["C08", "C09"],
     "infer/intervals/upper_limits.py": ["C09"], "infer/mle.py": ["C05", "C06"], "infer/utils.py": ["C08", "C07"],
     "cli/infer.py": ["C19"], "cli/spec.py": ["C19"], "cli/rootio.py": ["C19"], "cli/patchset.py": ["C19"],
